@@ -88,8 +88,12 @@ def gen_strings(rng, n_random, dom, ws=False):
                     for _ in range(k))
         out.append(s)
     res, seen = [], set()
-    for s in out:
-        s = s[:40]
+    # long strings, up to the longest documented limit of any entry point (255 CHARACTERS for the core properties):
+    # characters beyond the BMP count once, markup characters grow when escaped
+    long_ones = ["\U0001F600" * 128, "a" * 250 + "\U0001F600\U00010328\U0001D11E", ("&<>\"'" * 51)[:255], "x" * 255,
+                 ("\u4e2d\U00020000 " * 85)[:255]] if dom != "file" else []
+    for s in out + long_ones:
+        s = s[:40] if s not in long_ones else s
         if dom == "file":
             s = s.replace("/", "").replace("\x00", "")
             if s in (".", "..") or len((s + ".png").encode("utf-8")) > 240:
